@@ -4,7 +4,7 @@ cd "$(dirname "$0")/.."
 for s in ${SEEDS:-1 2 3}; do
   for p in $(python3 -c "import json;print(' '.join(c['property_id'] for c in json.load(open('MANIFEST.json'))['checks']))"); do
     out=$(VERIF_SEED=$s VERIF_NO_EVIDENCE=1 VERIF_REPLAY_DIR=/tmp/sweep_replays_$s ./check $p --tier ${TIER:-quick} 2>&1 | tail -3)
-    echo "seed=$s $p rc=$? :: $(echo "$out" | tail -1)"
+    echo "seed=$s $p :: $(echo "$out" | tail -1)"
     echo "$out" | grep -E "VIOLATION|MACHINERY|rejected" | head -3
   done
 done
